@@ -219,6 +219,29 @@ fn explore(ctx: &mut Ctx) {
         }
     }
 
+    // Huge universes that only the sparse and the run-length vector can represent: gaps of up to 2^60
+    // (long run-length codes, wide sparse low parts); chains over {SparseVector, RLVector}.
+    let huge: Vec<BitsDesc> = vec![
+        BitsDesc::Runs { pairs: vec![((1u64 << 52) + 12345, 2), (3, 1)], tail: 5 },
+        BitsDesc::Runs { pairs: vec![(0, 1), (1 << 48, 1), ((1 << 48) - 1, 2)], tail: 1 << 47 },
+        BitsDesc::Runs { pairs: vec![(1 << 60, 3), (1 << 59, 1), (1, 1)], tail: 1 << 61 },
+        BitsDesc::Runs { pairs: vec![(7, 1), (1 << 62, 2)], tail: (1 << 62) - 20 },
+    ];
+    for bits in &huge {
+        if !ctx.mine(bits) {
+            continue;
+        }
+        ctx.nontrivial(bits);
+        for by_from in [true, false] {
+            for ch in if by_from { &from_chains } else { &copy_chains } {
+                if ch.iter().all(|&t| t != T::Bv) {
+                    ctx.count("huge_universe_chains_checked", 1);
+                    check_chain(ctx, bits, ch, by_from);
+                }
+            }
+        }
+    }
+
     // Builder decompositions of run lists with <= 3 runs of length <= 4.
     let max_len = ctx.tier.pick(4, 5);
     let gaps = [0usize, 1, 2];
